@@ -198,10 +198,14 @@ def run_file(item):
         # ... and with memmap_dir (receivers backed by memory-mapped temporary files), complete files only
         variants += [(None, data, 'memmap')]
     gap = F.f4_has_gap(opts)
+    if gap and kind in ('il', 'mixed-il', 'int', 'be'):
+        # the companion channel, which has data in every segment, read through segments in which the target is listed without data
+        variants += [(None, data, 'companion')]
     for cut, d, raw_ts in variants:
         memmap = raw_ts == 'memmap'
+        target = F.B if raw_ts == 'companion' else F.A
         raw_ts = raw_ts is True
-        nops, L, bad = check_file(d, F.A, raw_timestamps=raw_ts, memmap=memmap)
+        nops, L, bad = check_file(d, target, raw_timestamps=raw_ts, memmap=memmap)
         res['counters']['files'] += 1
         res['counters']['ops'] += nops
         if L >= 2:
@@ -210,7 +214,7 @@ def run_file(item):
             res['counters']['gap_files'] += 1
         if cut is not None:
             res['counters']['truncated_files'] += 1
-        if cut is None and L >= 0:
+        if cut is None and L >= 0 and target == F.A:
             exp = H.expected_array(ref, F.A) if (kind != 'daqmx' and not kind.startswith('shortmid')) else None
             if exp is not None and exp[1] != L:
                 bad.append(('full-length', 'eager', 'len', exp[1], L))
@@ -218,7 +222,7 @@ def run_file(item):
         for (k, mode, op, exp, got) in bad[:6]:
             res['violations'].append({
                 'case': {'kind': kind, 'opts': [list(o) if isinstance(o, tuple) else o for o in opts], 'cut': cut,
-                         'seed': seed, 'op': op, 'mode': mode, 'raw_ts': raw_ts, 'memmap': memmap},
+                         'seed': seed, 'op': op, 'mode': mode, 'raw_ts': raw_ts, 'memmap': memmap, 'companion': target == F.B},
                 'expected': exp, 'observed': got,
                 'signature': {'kind': k, 'mode': mode, 'elem': kind, 'gap_segment_without_channel': gap,
                               'truncated': cut is not None, 'raw_ts': raw_ts, 'memmap': memmap}})
@@ -376,7 +380,8 @@ def replay(case):
     data = G.encode(hist, seed=case.get('seed', 0))[0]
     if case.get('cut') is not None:
         data = data[:case['cut']]
-    _n, _L, bad = check_file(data, F.A, raw_timestamps=bool(case.get('raw_ts')), max_bad=1000, memmap=bool(case.get('memmap')))
+    _n, _L, bad = check_file(data, F.B if case.get('companion') else F.A, raw_timestamps=bool(case.get('raw_ts')), max_bad=1000,
+                             memmap=bool(case.get('memmap')))
     for (k, mode, op, exp, got) in bad:
         if op == case['op'] and mode == case['mode']:
             return True, exp, got
